@@ -437,6 +437,24 @@ pub fn check(id: &str, tier: Tier) -> i32 {
         }
       }
     }
+    if thorough && id != "C13" {
+      // a recycling thread (three operations) against one walker, from shapes with a free block next to the cursor
+      use TOp::*;
+      let long: Vec<Vec<TOp>> = vec![vec![B(16), DropOwn, B(24)], vec![B(24), DropOwn, B(16)]];
+      let mut single: Vec<Vec<TOp>> = vec![vec![B(16)], vec![B(24)], vec![DropPre(1)]];
+      if id == "C07" {
+        single.push(vec![Discard]);
+      }
+      for fl in [Fl::Optimistic, Fl::Pessimistic] {
+        for shape in [48u8, 3] {
+          for l in &long {
+            for s1 in &single {
+              pitems.push(Harness { fl, unify: true, min_seg: 8, cap: 256, shape, progs: vec![l.clone(), s1.clone()], own_arenas: false, leave: 0, odd: 0, reserved: 0 });
+            }
+          }
+        }
+      }
+    }
     if !thorough && id != "C13" {
       // a few pairs with two operations in one thread (the thorough tier has them all)
       use TOp::*;
